@@ -146,7 +146,7 @@ def make_case(seed, idx, tier):
         near = opt + rng.choice([-1, 1, 0]) * rng.choice([0.0, 1e-4, 0.05, 0.1])
         if rng.random() < 0.35:
             # just outside the precision: must NOT count as a hit (absolute tolerance, whatever the size of the optimum)
-            near = opt + rng.choice([-1, 1]) * (eps0 * (1 + 1e-9) + rng.choice([0.0, 4e-6, 9e-6]) * abs(opt))
+            near = opt + rng.choice([-1, 1]) * (eps0 * (1 + 1e-9) + rng.choice([0.0, 4e-6, 9e-6, 5e-10, 5e-10]) * abs(opt))
             far = near if rng.random() < 0.5 else far
         if mode == "never":
             v = far
